@@ -37,6 +37,11 @@
       :tup (tuple ;(map mk (tuple/slice d 1)))
       :btup (tuple/brackets ;(map mk (tuple/slice d 1)))
       :tab (table ;(map mk (tuple/slice d 1)))
+      :warr (let [a (array/weak 4)] (each x (tuple/slice d 1) (array/push a (mk x))) a)
+      :wtabk (let [t (table/weak-keys 4)] (loop [j :range [1 (length d) 2]] (put t (mk (in d j)) (mk (in d (+ j 1))))) t)
+      :wtabv (let [t (table/weak-values 4)] (loop [j :range [1 (length d) 2]] (put t (mk (in d j)) (mk (in d (+ j 1))))) t)
+      :wtabkv (let [t (table/weak 4)] (loop [j :range [1 (length d) 2]] (put t (mk (in d j)) (mk (in d (+ j 1))))) t)
+      :proto (let [t (mk (in d 1))] (table/setproto t (mk (in d 2))) t)
       :struct (struct ;(map mk (tuple/slice d 1)))
       (errorf "bad descriptor %p" d))
     d))
@@ -107,6 +112,21 @@
                 :tuple (if (= :brackets (tuple/type obj)) (tuple/brackets :R) (tuple :R))))
     (def c (unmarshal (marshal x @{obj 'r}) @{'r repl}))
     (array/push out (canon c)))
+  # 7 the graph held by a closure (captured variable) and by a suspended fiber (local of its
+  #   frame), marshalled together with the graph itself: one copy of the graph, reachable three ways
+  (array/push out
+              (if lean "="
+                (let [holder (let [cap x] (fn holder [] cap))
+                      fb (fiber/new (let [cap x] (fn body [] (def loc cap) (yield 1) loc)))]
+                  (resume fb)
+                  (def pc (rt [x holder fb]))
+                  (def x2 (in pc 0))
+                  (def via-closure ((in pc 1)))
+                  (def via-fiber (resume (in pc 2)))
+                  (cond
+                    (not= o (canon x2)) (canon x2)
+                    (not= (canon [x2 via-closure via-fiber]) (canon [x x x])) (canon [x2 via-closure via-fiber])
+                    "="))))
   # 6 marshalling does not change the original, and is a function of the value
   (array/push out (if (= (string b0) (string (marshal x))) (if lean "=" (same o (canon x))) "remarshal-differs"))
   (string/join out "\t"))
@@ -123,6 +143,11 @@
   (array/push out ow)
   (array/push out (same ow (canon (rt w))))
   (array/push out (string (type c1)))
+  # the type byte of the encoding survives (weak tables and arrays stay weak), and marshalling
+  # into a buffer that already holds data appends
+  (def b (marshal x @{} @"pre"))
+  (array/push out (string (= (in (marshal x) 0) (in (marshal c1) 0))
+                          (and (= "pre" (string (buffer/slice b 0 3))) (= o (canon (unmarshal (buffer/slice b 3)))))))
   (string/join out "\t"))
 
 (defn do-ints [item]
